@@ -2,7 +2,7 @@
 """keep_seed.py <PROP> <n> <slug> "<needs>" "<caught by>"  -- copy a confirmed seeded change into /verif/seeded/<slug>/"""
 import sys, os, shutil, json
 prop, n, slug, needs, caught = sys.argv[1:6]
-src = "/tmp/seed/%s.out/%s" % (prop, n)
+src = "%s/%s.out/%s" % (os.environ.get("SEED_ROOT", "/tmp/seed"), prop, n)
 dst = "/verif/seeded/%s" % slug
 os.makedirs(dst, exist_ok=True)
 for f in os.listdir(src):
@@ -10,7 +10,9 @@ for f in os.listdir(src):
     if os.path.getsize(os.path.join(src, f)) > 200000: continue
     shutil.copy(os.path.join(src, f), os.path.join(dst, f))
 confirm = open(os.path.join(src, "confirm.txt")).read() if os.path.exists(os.path.join(src, "confirm.txt")) else ""
-meta = {"property": prop, "needs_to_manifest": needs, "written_by": "fresh sub-agent given only the property text and a scratch worktree",
+import subprocess
+base = subprocess.check_output(["git","-C","/repo","rev-parse","--short","HEAD"]).decode().strip()
+meta = {"property": prop, "base_commit": base, "round": os.environ.get("SEED_ROUND", "1"), "needs_to_manifest": needs, "written_by": "fresh sub-agent given only the property text and a scratch worktree",
         "confirmed": {"how": "tools/confirm_seed.sh in the scratch worktree: git apply; cargo build; cargo test --workspace --no-fail-fast --offline; demo.sh with the change; git checkout; rebuild; demo.sh without it", "result": confirm.strip().splitlines()},
         "detected_by": caught, "how_checked": "tools/try_seed.sh patch.diff <checks> (checks run with VERIF_REPO pointing at a scratch copy of /repo with the patch applied; /repo itself untouched)"}
 json.dump(meta, open(os.path.join(dst, "meta.json"), "w"), indent=1)
